@@ -8,6 +8,7 @@ Tasks:
   {"op": "merge_full", … same … } -> per cfg {"ok": {"merged": nb, "decisions": [...]}} | error
   {"op": "apply", "b":…, "decisions": [...]} -> {"ok": merged} | error
   {"op": "tools"} -> which external helpers this process sees
+  {"op": "locale"} -> the encodings this process uses (files opened without an encoding, file names, stdout), its temp directory
 """
 import sys, os, json, copy, traceback, logging
 
@@ -159,6 +160,10 @@ def run_task(t):
         return {'ok': {'git': bool(PP.which('git')), 'diff3': bool(PP.which('diff3'))}}
     if op == 'probe':
         return {'ok': probe()}
+    if op == 'locale':
+        import locale, tempfile
+        return {'ok': {'preferred': locale.getpreferredencoding(False), 'fs': sys.getfilesystemencoding(), 'stdout': getattr(sys.stdout, 'encoding', None),
+                       'utf8_mode': int(sys.flags.utf8_mode), 'tmp_ascii': all(ord(c) < 128 for c in tempfile.gettempdir())}}
     if op == 'clear_all':
         # the real clear-all arm of resolve_conflicted_decisions_list on given builders (decisions installed as they are)
         import nbdime.merging.strategies as S
